@@ -1,4 +1,5 @@
 import Cvise.Model.Clex
+import Cvise.Proofs.ClexModes
 import Cvise.Gen.Tools
 /-!
 # C18 — the clex helper never crashes and edits tokens as specified (mode functions of driver.c over a token array)
@@ -101,6 +102,75 @@ theorem rmToks_prefix (b : Bool) (n idx : Nat) (ts : List Tok) :
     rw [h] at this
     simp only at this ⊢
     cases m <;> simp_all
+
+/-! ### the other token-editing modes (proofs in `Proofs/ClexModes.lean`) -/
+
+/-- `rm-tok-pattern-n`: the output is the input token sequence with some tokens dropped — nothing is added, changed or
+    reordered — and blank tokens (white space, newlines) are never dropped -/
+theorem rmTokPattern_output_sublist (b : Bool) (n idx : Nat) (ts : List Tok) :
+    ∃ kept : List Tok, kept.Sublist ts ∧ (∀ t ∈ ts, blank t = true → t ∈ kept) ∧ (run b (.rmTokPattern n) idx ts).out = concat kept :=
+  rmTokPattern_sublist n idx ts
+
+/-- `rm-tok-pattern-n` (n ≥ 1) says OK exactly for the indices below `2^(n-1) ·` (number of non-blank tokens): index
+    `idx` addresses window position `idx / 2^(n-1)`, whose first token is always deleted.  The OK indices are a prefix. -/
+theorem rmTokPattern_prefix (b : Bool) (n idx : Nat) (hn : 1 ≤ n) (ts : List Tok) :
+    (run b (.rmTokPattern n) idx ts).exit = .ok ↔ idx / 2 ^ (n - 1) < nonBlank ts :=
+  rmTokPattern_ok_iff n idx hn ts
+
+/-- `delete-string`: OK exactly when the `idx`-th string literal other than `""` exists; then the output is the input
+    with exactly that one token replaced by `""`; on STOP the output is the input -/
+theorem deleteString_spec (b : Bool) (idx : Nat) (ts : List Tok) :
+    ((run b .deleteString idx ts).exit = .ok ↔ idx < fullStrings ts) ∧
+    ((run b .deleteString idx ts).exit = .stop → (run b .deleteString idx ts).out = concat ts) ∧
+    ((run b .deleteString idx ts).exit = .ok → ∃ pre t post, ts = pre ++ t :: post ∧ fullString t = true ∧ fullStrings pre = idx ∧
+      (run b .deleteString idx ts).out = concat pre ++ emptyStr ++ concat post) := by
+  have h := delStrGo_spec idx ts 0 [] (Nat.zero_le _)
+  simp only [run, deleteString]
+  generalize delStrGo idx ts 0 false [] = r at h ⊢
+  obtain ⟨m, out⟩ := r
+  simp only [Nat.zero_add, List.nil_append] at h ⊢
+  cases m <;> simp_all
+
+/-- `shorten-string`: OK exactly when `idx` addresses a character between the quotes of some string literal; the output
+    is then exactly one character shorter than the input; on STOP the output is the input -/
+theorem shortenString_spec (b : Bool) (idx : Nat) (ts : List Tok) :
+    ((run b .shortenString idx ts).exit = .ok ↔ idx < stringChars ts) ∧
+    ((run b .shortenString idx ts).exit = .stop → (run b .shortenString idx ts).out = concat ts) ∧
+    ((run b .shortenString idx ts).exit = .ok → (run b .shortenString idx ts).out.length + 1 = (concat ts).length) := by
+  have h := shortenGo_spec ts idx []
+  simp only [run, shortenString]
+  generalize shortenGo ts idx false [] = r at h ⊢
+  obtain ⟨m, out⟩ := r
+  simp only [List.nil_append, List.length_nil, Nat.zero_add] at h ⊢
+  cases m <;> simp_all
+
+/-- `x-string` never changes the length of the text -/
+theorem xString_length (b : Bool) (idx : Nat) (ts : List Tok) : (run b .xString idx ts).out.length = (concat ts).length := by
+  have h := xStrGo_length idx ts 0 false []
+  simp only [run, xString]
+  generalize xStrGo idx ts 0 false [] = r at h ⊢
+  obtain ⟨m, out⟩ := r
+  simpa using h
+
+/-- for these modes the OK indices form a prefix `0 … k-1` of the naturals (STOP is a suffix of the enumeration) -/
+theorem ok_indices_are_a_prefix (b : Bool) (ts : List Tok) (i j : Nat) (hij : i ≤ j) :
+    ((run b .deleteString j ts).exit = .ok → (run b .deleteString i ts).exit = .ok) ∧
+    ((run b .shortenString j ts).exit = .ok → (run b .shortenString i ts).exit = .ok) ∧
+    (∀ n, (run b (.rmToks n) j ts).exit = .ok → (run b (.rmToks n) i ts).exit = .ok) ∧
+    (∀ n, 1 ≤ n → (run b (.rmTokPattern n) j ts).exit = .ok → (run b (.rmTokPattern n) i ts).exit = .ok) := by
+  refine ⟨?_, ?_, ?_, ?_⟩
+  · rw [(deleteString_spec b j ts).1, (deleteString_spec b i ts).1]; omega
+  · rw [(shortenString_spec b j ts).1, (shortenString_spec b i ts).1]; omega
+  · intro n; rw [rmToks_prefix, rmToks_prefix]; omega
+  · intro n hn; rw [rmTokPattern_prefix b n j hn, rmTokPattern_prefix b n i hn]
+    intro h
+    exact Nat.lt_of_le_of_lt (Nat.div_le_div_right hij) h
+
+/-- non-vacuity: `"ab" "" "c"`, delete-string 1 replaces the third token; shorten-string 1 drops the `b` -/
+example : run true .deleteString 1 [⟨.string, "\"ab\"".toList⟩, ⟨.string, "\"\"".toList⟩, ⟨.string, "\"c\"".toList⟩] =
+    ⟨.ok, "\"ab\"\"\"\"\"".toList⟩ := by decide
+example : run true .shortenString 1 [⟨.string, "\"ab\"".toList⟩] = ⟨.ok, "\"a\"".toList⟩ := by decide
+example : run true (.rmTokPattern 2) 1 [⟨.ident, ['a']⟩, ⟨.ws, [' ']⟩, ⟨.ident, ['b']⟩, ⟨.ident, ['c']⟩] = ⟨.ok, " c".toList⟩ := by decide
 
 /-! `define` -/
 
